@@ -71,7 +71,9 @@ func (r *Report) Tag(t string) { r.Histogram[t]++ }
 func (r *Report) Disagree(d Disagreement) {
 	r.NDisagreements++
 	d.Stream = r.Stream
-	// keep the 3 shortest per class, 40 overall
+	// keep the 3 shortest per class (the number of classes of a stream is small and fixed; the overall bound only guards
+	// against a stream that invents a class per case). A low overall bound let the early classes of a stream crowd out the
+	// later ones, and a property that reads only its own classes then saw nothing.
 	n, longest := 0, -1
 	for i, x := range r.Disagreements {
 		if x.Class == d.Class {
@@ -81,7 +83,7 @@ func (r *Report) Disagree(d Disagreement) {
 			}
 		}
 	}
-	if n < 3 && len(r.Disagreements) < 60 {
+	if n < 3 && len(r.Disagreements) < 1500 {
 		r.Disagreements = append(r.Disagreements, d)
 	} else if n >= 3 && len(d.Case) < len(r.Disagreements[longest].Case) {
 		r.Disagreements[longest] = d
